@@ -368,6 +368,8 @@ pub fn get_datacake_timestamp() -> Duration {
     }
 
     let duration = SystemTime::now().duration_since(UNIX_EPOCH).unwrap();
+    #[cfg(feature = "verif")]
+    let duration = verif_clock::injected_unix().unwrap_or(duration);
 
     let (seconds, fractional) = duration_to_parts(duration - DATACAKE_EPOCH);
     parts_as_duration(seconds, fractional)
@@ -385,6 +387,21 @@ pub mod verif_clock {
     /// Sets (`Some(ms since the datacake epoch)`) or clears (`None`) the injected wall clock.
     pub fn set_wall_ms(ms: Option<u64>) {
         WALL_OVERRIDE_MS.store(ms.unwrap_or(u64::MAX), Ordering::SeqCst);
+    }
+
+    static UNIX_OVERRIDE_MS: AtomicU64 = AtomicU64::new(u64::MAX);
+
+    /// Sets (`Some(ms since the UNIX epoch)`) or clears (`None`) the injected reading of the
+    /// system clock itself, i.e. before it is converted to the datacake epoch.
+    pub fn set_unix_ms(ms: Option<u64>) {
+        UNIX_OVERRIDE_MS.store(ms.unwrap_or(u64::MAX), Ordering::SeqCst);
+    }
+
+    pub(crate) fn injected_unix() -> Option<Duration> {
+        match UNIX_OVERRIDE_MS.load(Ordering::SeqCst) {
+            u64::MAX => None,
+            ms => Some(Duration::from_millis(ms)),
+        }
     }
 
     pub(crate) fn injected_wall() -> Option<Duration> {
